@@ -78,7 +78,7 @@ def build_problem(case):
                                    tdep=(rng.random() < 0.3),
                                    gap=wl.choose(rng, ['flow', 'flow', 'none',
                                                        'no_flow']),
-                                   empty_frac=0.2)
+                                   empty_frac=0.2, regions_frac=0.5)
     return P, feats
 
 
@@ -431,6 +431,27 @@ def run_case(case):
     def on_step(rec):
         state['steps'] += 1
         reg = rec['reg']
+        # the region that takes the step is the one this height belongs to,
+        # and the power handed to it is of its own kind (pins/coolant/duct
+        # for a pin bundle, homogenised otherwise)
+        zm = 0.5 * (rec['z0'] + rec['z1'])
+        pw = rec['pow'] or {}
+        kind_ok = True
+        if any(v is not None for v in pw.values()):
+            if reg.is_rodded:
+                kind_ok = pw.get('refl') is None
+            else:
+                kind_ok = all(pw.get(c) is None
+                              for c in ('pins', 'cool', 'duct'))
+        res.check('I6_step_taken_by_region_of_this_height',
+                  float(reg.z[0]) - 1e-9 <= zm <= float(reg.z[1]) + 1e-9
+                  and kind_ok,
+                  'step %.6f-%.6f m taken by region "%s" spanning %.6f-%.6f m'
+                  ' (power kind matches region: %s)'
+                  % (rec['z0'], rec['z1'], reg.name, float(reg.z[0]),
+                     float(reg.z[1]), kind_ok),
+                  dict(key, n_regions=len(rec['asm'].region)),
+                  {'asm': rec['asm'].id})
         if reg.is_rodded:
             check_rodded(res, rec, key)
         else:
